@@ -5,6 +5,9 @@ ALL = ["C%02d" % i for i in range(1, 21)]
 
 # id -> (level text, level note, technique)
 CLAIMED = {
+ "C05": ("Decides structural necessary conditions of sound double-sign slashing on staking and consensus/ucon: (D1) the penalty is dominated by a comparison of two entries' block hashes; (D2) every entry's signature is verified under the key of GetByIndex(SignerIdx), the loop covers the whole list and a failed check cannot reach the penalty or the signer cache; (D3) once per validator per block, parent round only; (D4) builder and validator run processEvidences with a parent height derived from the processed header; (D5) amount = tokens x configured fraction / 100, credited to PenaltyTo, amounts taken = amounts accumulated; (D6) the signed payload identifies the vote kind (open finding F8). It does not decide the arithmetic of the proportional split.",
+         "Trusted: go/types + go/ssa; BLS Verify sound; tables in ycheck/rules_c05.go. One open known finding (F8).",
+         "SSA dominance gates with control-dependence slices, failure-edge reachability, provenance of penalty amount and parent height"),
  "C01": ("Decides structural necessary conditions of header acceptance on every path of the verifier (consensus/ucon, core/types): (R1) thresholds reaching VrfVerifySortition/VrfVerifyPriority/OverThreshold derive from protocol parameters, never from header-carried consensus data; (R2) non-nil/kind/online tests dominate counting a vote and accepting the proposer; (R3) every accepting return of verifyVotes passed the quorum test on an accumulator that only grows by the seat count of a successful sortition check, once per signer, plus the aggregate signature over hash|round|index; (R4) every accepting return of verifyConsensusFieldMain and its wrappers passed priority, precommit and certificate checks; (R5) the block hash excludes only Validator/Signature/Certificate and the quorum fractions are 0.685/0.585. It does not decide the soundness of BLS/VRF or the arithmetic of choose().",
          "Trusted: go/types + go/ssa, the anchor tables in ycheck/rules_c01.go; VRF/BLS primitives assumed to meet their contracts.",
          "SSA dominance gates, return-path (EXIT) analysis with edge facts, backward provenance slices, access-path identity"),
